@@ -3,5 +3,12 @@ package __PKG__
 import "github.com/hashicorp/eventlogger"
 
 func newEvent(payload interface{}) *eventlogger.Event {
-	return &eventlogger.Event{Type: "t", Formatted: map[string][]byte{}, Payload: payload}
+	// the event may have been formatted already (an earlier node, a sibling pipeline): that entry belongs to the original
+	return &eventlogger.Event{Type: "t", Formatted: map[string][]byte{"earlier": []byte("doc")}, Payload: payload}
+}
+
+// originalFormatKept: Process leaves the caller's format table alone
+func originalFormatKept(e *eventlogger.Event, tag string) {
+	v, ok := e.Format("earlier")
+	verifAssert(ok && string(v) == "doc", tag+".original-format-table-untouched")
 }
